@@ -435,4 +435,32 @@ theorem second_realize_dropped_the_first_handles_counterexample :
     (Sm.trace pstep pinit (ops ++ [.pclose 0])).getLast? = some (.closed 0) := by
   decide
 
+/-- "Once all users have closed": when every task was started by some FetchProxy, no proxy owns
+    a task any more (every call has ended, every proxy with handles has been Closed) and no
+    flight is in progress, the arena map is empty, every file is closed, every count is zero
+    and the arena code owns no descriptor.  **Partial**: `orphans = []`, the hypothesis of
+    `quiescent_clean_partial` (finding orphan-after-cancel). -/
+theorem all_proxies_closed_clean_partial (ops : List POp)
+    (hown : ∀ t, (Sm.run pstep pinit ops).own t = none)
+    (husers : ∀ t, t < (Sm.run pstep pinit ops).f.a.tasks.length → (Sm.run pstep pinit ops).wasOwned t = true)
+    (hfl : ∀ k, (Sm.run pstep pinit ops).f.a.flight k = none)
+    (ho : (Sm.run pstep pinit ops).f.a.orphans = []) :
+    (∀ k, (Sm.run pstep pinit ops).f.a.arena k = none) ∧
+    (∀ r, ((Sm.run pstep pinit ops).f.a.rc r).fileOpen = false) ∧
+    (∀ r, ((Sm.run pstep pinit ops).f.a.rc r).count = 0) ∧
+    (∀ n e, look (Sm.run pstep pinit ops).f.tab n = some e → e.owner = .ext) := by
+  have hp := preachable_pinv ops
+  have hq : Quiescent (Sm.run pstep pinit ops).f.a := by
+    refine ⟨?_, hfl, hp.finv.inv.noLeak⟩
+    intro p hm
+    obtain ⟨t, hlt, ht⟩ := List.getElem_of_mem hm
+    have hover := hp.released t (husers t hlt) (hown t)
+    have hget : (Sm.run pstep pinit ops).f.a.tasks[t]? = some p := by
+      rw [List.getElem?_eq_getElem hlt, ht]
+    rcases hover with h | h
+    · rw [hget] at h; exact Or.inl (Option.some.inj h)
+    · rw [hget] at h; exact Or.inr (Option.some.inj h)
+  obtain ⟨h1, h2, h3⟩ := quiescent_facts hp.finv.inv hq ho
+  exact ⟨h1, h2, h3, quiescent_no_descriptors hp.finv hq ho⟩
+
 end ClairModel.Props.C10
